@@ -20,6 +20,18 @@ package main
 // executed at the end of the connection's generation, when the deliveries of
 // the others have piled up).
 //
+// A client that has stopped reading can still send: an operation of a
+// connection whose reader is paused is handed to the relay without waiting
+// for its reply (the recorded operation carries p=true).  The session takes
+// the message, does its work on the registry and then blocks handing over the
+// reply, so at most one such operation is in flight per connection: further
+// REQ/EVENT/COUNT/CLOSE operations of that connection are skipped until it
+// resumes (a CLOSE, which has no reply, is sent at once and its acknowledging
+// COUNT becomes the operation in flight).  When the reader resumes, the reply
+// is awaited and stamped before anything else happens on that connection; a
+// client that goes away without reading leaves the operation unanswered.  In
+// a conc script "pause" / "resume" are operations of the client's own script.
+//
 // Both record a timed history: a global monotone clock is read before an
 // operation is handed to the relay, after its reply has been received, and
 // after every message a connection receives.  No verdict is taken here, and
@@ -50,6 +62,7 @@ type c07Op struct {
 	D   *int64           `json:"d"`
 	X   bool             `json:"x,omitempty"`  // det: the client disconnects right after sending this operation
 	St  bool             `json:"st,omitempty"` // disc: the client has stopped reading and goes away without reading what is pending
+	P   bool             `json:"p,omitempty"`  // observation: handed over while the client was not reading, the reply was not awaited (d: read after the client resumed)
 }
 
 type c07Msg struct {
@@ -153,6 +166,7 @@ type c07Session struct {
 	paused   bool        // touched by the driver only
 	gone     bool        // disconnected (driver only)
 	dead     bool        // a wait expired on this session (driver / its own client only)
+	pend     *c07Op      // handed over while the reader was paused; its reply has not been read (driver / its own client only)
 }
 
 func c07ToMsg(m mocrelay.ServerMsg, st int64) c07Msg {
@@ -364,6 +378,110 @@ func (s *c07Session) execCut(op c07Op) {
 	w.addHop(dh)
 }
 
+// execPending hands one operation to the relay while the client is not
+// reading, and does not wait for the reply: the session's receive loop takes
+// the message, does its registry work and then blocks handing over the reply
+// (nobody reads).  The operation is recorded when its fate is known: by
+// collectPending (the reader has resumed, the reply arrives) or by
+// dropPending (the client went away without reading).
+func (s *c07Session) execPending(op c07Op) {
+	w := s.w
+	h := c07Op{C: s.idx, O: op.O, Sub: op.Sub, Fs: op.Fs, E: op.E, P: true}
+	var m mocrelay.ClientMsg
+	switch op.O {
+	case "req":
+		m = &mocrelay.ClientReqMsg{SubscriptionID: op.Sub, ReqFilters: common.ToFilters(op.Fs)}
+	case "count":
+		m = &mocrelay.ClientCountMsg{SubscriptionID: op.Sub, ReqFilters: common.ToFilters(op.Fs)}
+	case "event":
+		m = &mocrelay.ClientEventMsg{Event: op.E.ToEvent()}
+	default:
+		return
+	}
+	// replies of earlier operations have all been consumed, and none arrives while the reader is paused
+	for len(s.replyCh) > 0 {
+		<-s.replyCh
+	}
+	h.B = w.tick()
+	if !s.sendMsg(m) {
+		s.markStuck()
+		w.addHop(h)
+		return
+	}
+	s.pend = &h
+}
+
+// collectPending: the reader reads again, so the reply to the operation in
+// flight arrives now; it is consumed here and cannot be taken for the reply to
+// a later operation.
+func (s *c07Session) collectPending() {
+	if s.pend == nil {
+		return
+	}
+	h := *s.pend
+	s.pend = nil
+	if s.waitReply() {
+		d := s.w.tick()
+		h.D = &d
+	} else {
+		s.markStuck()
+	}
+	s.w.addHop(h)
+}
+
+// dropPending: the client is gone without having read the reply (or a wait
+// has expired and the case is being wound up).
+func (s *c07Session) dropPending() {
+	if s.pend == nil {
+		return
+	}
+	h := *s.pend
+	s.pend = nil
+	s.w.addHop(h)
+}
+
+// resumeLogged: the client reads again (recorded), and what was in flight is answered.
+func (s *c07Session) resumeLogged() {
+	if !s.paused {
+		return
+	}
+	s.resume()
+	s.w.addHop(c07Op{C: s.idx, O: "resume", B: s.w.tick()})
+	s.collectPending()
+}
+
+// pauseLogged: the client stops reading (recorded).
+func (s *c07Session) pauseLogged() {
+	if s.paused {
+		return
+	}
+	if s.pause() {
+		s.w.addHop(c07Op{C: s.idx, O: "pause", B: s.w.tick()})
+	} else {
+		s.markStuck()
+	}
+}
+
+// execPaused: an operation of a client that is not reading.
+func (s *c07Session) execPaused(op c07Op) {
+	if s.pend != nil {
+		return // the session's receive loop is blocked on the reply in flight: it would not take the message
+	}
+	switch op.O {
+	case "req", "count", "event":
+		if op.X {
+			s.execCut(op)
+			return
+		}
+		s.execPending(op)
+	case "close":
+		s.exec(op) // no reply to wait for
+		if !s.dead && !op.X {
+			s.execPending(c07Op{O: "count", Sub: c07AckSub, Fs: c07Filters1("~")})
+		}
+	}
+}
+
 // exec runs one client-visible operation and records it.
 func (s *c07Session) exec(op c07Op) {
 	w := s.w
@@ -415,6 +533,7 @@ func (s *c07Session) exec(op c07Op) {
 		t.Stop()
 		s.gone = true
 		w.addHop(h)
+		s.dropPending()
 	}
 }
 
@@ -469,9 +588,12 @@ func (w *c07World) finish(c *c07Case) {
 	}
 	for _, s := range w.ss {
 		if s.paused && !s.gone {
-			s.resume()
-			w.addHop(c07Op{C: s.idx, O: "resume", B: w.tick()})
+			s.resumeLogged()
 		}
+	}
+	for _, s := range w.ss {
+		// (a wait that expired: what was in flight stays unanswered)
+		s.dropPending()
 	}
 	drained := make([]bool, len(w.ss))
 	var open []*c07Session
@@ -642,21 +764,16 @@ func c07RunDet(c *c07Case) {
 		}
 		switch op.O {
 		case "pause":
-			if !s.paused {
-				if s.pause() {
-					w.addHop(c07Op{C: s.idx, O: "pause", B: w.tick()})
-				} else {
-					s.markStuck()
-				}
-			}
+			s.pauseLogged()
 		case "resume":
-			if s.paused {
-				s.resume()
-				w.addHop(c07Op{C: s.idx, O: "resume", B: w.tick()})
-			}
+			s.resumeLogged()
 		case "close":
 			if s.paused {
-				continue // its reply could not be read
+				if s.pend != nil {
+					continue
+				}
+				s.execPaused(op)
+				break
 			}
 			s.exec(op)
 			// CLOSE has no reply: a COUNT on the same connection is answered only after it
@@ -665,14 +782,17 @@ func c07RunDet(c *c07Case) {
 			}
 		case "disc":
 			if s.paused && !op.St {
-				s.resume()
-				w.addHop(c07Op{C: s.idx, O: "resume", B: w.tick()})
+				s.resumeLogged()
 				w.settle(200*time.Microsecond, 5*time.Millisecond)
 			}
 			s.exec(op)
 		default:
 			if s.paused {
-				continue
+				if s.pend != nil {
+					continue
+				}
+				s.execPaused(op)
+				break
 			}
 			s.exec(op)
 		}
@@ -737,8 +857,21 @@ func c07RunConc(c *c07Case) {
 						time.Sleep(time.Duration(pr.Intn(120)) * time.Microsecond)
 					}
 					switch op.O {
-					case "req", "close", "count", "event", "disc":
+					case "pause":
+						s.pauseLogged()
+					case "resume":
+						s.resumeLogged()
+					case "disc":
+						if s.paused && !op.St {
+							s.resumeLogged()
+						}
 						s.exec(op)
+					case "req", "close", "count", "event":
+						if s.paused {
+							s.execPaused(op)
+						} else {
+							s.exec(op)
+						}
 					}
 				}
 			}(s, script)
@@ -803,8 +936,21 @@ func c07GenDet(r *common.Rand) c07Case {
 	u := c07Universe(nops / 3)
 	alive := make([]bool, c.NC)
 	paused := make([]bool, c.NC)
+	pend := make([]bool, c.NC)
 	for i := range alive {
 		alive[i] = true
+	}
+	// a client that has stopped reading can still send: one operation per pause (its reply stays unread,
+	// and the session takes nothing more from that client, until it reads again)
+	quiet := func(x int) bool {
+		if !paused[x] {
+			return false
+		}
+		if pend[x] || !r.Chance(45) {
+			return true
+		}
+		pend[x] = true
+		return false
 	}
 	nev := 0
 	for len(c.Script) < nops {
@@ -818,24 +964,24 @@ func c07GenDet(r *common.Rand) c07Case {
 		}
 		switch {
 		case k < 30:
-			if paused[x] {
+			if quiet(x) {
 				continue
 			}
 			c.Script = append(c.Script, c07Op{C: x, O: "req", Sub: common.Pick(r, c07Subs), Fs: c07GenFilters(r, u)})
 		case k < 68:
-			if paused[x] {
+			if quiet(x) {
 				continue
 			}
 			e := u.Event(r, nev)
 			nev++
 			c.Script = append(c.Script, c07Op{C: x, O: "event", E: &e})
 		case k < 78:
-			if paused[x] {
+			if quiet(x) {
 				continue
 			}
 			c.Script = append(c.Script, c07Op{C: x, O: "close", Sub: common.Pick(r, c07Subs)})
 		case k < 80:
-			if paused[x] {
+			if quiet(x) {
 				continue
 			}
 			c.Script = append(c.Script, c07Op{C: x, O: "count", Sub: common.Pick(r, c07Subs), Fs: c07GenFilters(r, u)})
@@ -852,6 +998,7 @@ func c07GenDet(r *common.Rand) c07Case {
 			if paused[x] {
 				c.Script = append(c.Script, c07Op{C: x, O: "resume"})
 				paused[x] = false
+				pend[x] = false
 			}
 		}
 		// now and then the client disconnects right after sending, without waiting for the reply
@@ -889,6 +1036,10 @@ func c07GenConc(r *common.Rand) c07Case {
 			for i := 0; i < n; i++ {
 				sc = append(sc, c07Op{C: x, O: "req", Sub: c07Subs[i], Fs: c07GenFilters(r, u)})
 			}
+			if r.Chance(50) {
+				// ... and one more message sent when it no longer reads
+				sc = append(sc, c07Op{C: x, O: "pause"}, c07GenUnread(r, u, x, &nev))
+			}
 		} else {
 			n := 4 + r.Intn(14)
 			for i := 0; i < n; i++ {
@@ -916,11 +1067,39 @@ func c07GenConc(r *common.Rand) c07Case {
 					i = n
 				}
 			}
+			if last := sc[len(sc)-1]; last.O != "disc" && r.Chance(20) {
+				// the client stops reading for a while and sends one more message in the meantime
+				sc = append(sc, c07Op{C: x, O: "pause"}, c07GenUnread(r, u, x, &nev))
+				if r.Chance(50) {
+					sc = append(sc, c07Op{C: x, O: "resume"})
+					for j := r.Intn(3); j > 0; j-- {
+						e := u.Event(r, -1)
+						e.ID = fmt.Sprintf("id%d_%d", x, nev)
+						nev++
+						sc = append(sc, c07Op{C: x, O: "event", E: &e})
+					}
+				}
+			}
 		}
 		c.Scripts = append(c.Scripts, sc)
 		c.Readers = append(c.Readers, rd)
 	}
 	return c
+}
+
+// c07GenUnread: the one message a conc client sends while it is not reading:
+// mostly a REQ (new or replacing), else an EVENT or a COUNT
+func c07GenUnread(r *common.Rand, u common.Universe, x int, nev *int) c07Op {
+	switch k := r.Intn(10); {
+	case k < 7:
+		return c07Op{C: x, O: "req", Sub: common.Pick(r, c07Subs), Fs: c07GenFiltersWide(r, u)}
+	case k < 9:
+		e := u.Event(r, -1)
+		e.ID = fmt.Sprintf("id%d_%d", x, *nev)
+		*nev++
+		return c07Op{C: x, O: "event", E: &e}
+	}
+	return c07Op{C: x, O: "count", Sub: common.Pick(r, c07Subs), Fs: c07GenFilters(r, u)}
 }
 
 // c07GenFiltersWide: as c07GenFilters, but more often a filter that matches everything
@@ -947,6 +1126,7 @@ func c07GenChurn(r *common.Rand) c07Case {
 	born := make([]bool, c.NC)
 	alive := make([]bool, c.NC)
 	paused := make([]bool, c.NC)
+	pend := make([]bool, c.NC)
 	nsub := make([]int, c.NC)
 	for i := 0; i < n1; i++ {
 		born[i], alive[i] = true, true
@@ -971,9 +1151,19 @@ func c07GenChurn(r *common.Rand) c07Case {
 		if len(c.Script) < n1 && r.Chance(80) {
 			k = 0
 		}
+		// a subscriber that has stopped reading can still send one message (REQ or EVENT here)
+		unread := func(x int) bool { return alive[x] && paused[x] && !pend[x] }
 		switch {
 		case k < 20:
-			x := pick(func(x int) bool { return active(x) && (len(c.Script) >= n1 || nsub[x] == 0) })
+			x := -1
+			if r.Chance(30) {
+				if x = pick(unread); x >= 0 {
+					pend[x] = true
+				}
+			}
+			if x < 0 {
+				x = pick(func(x int) bool { return active(x) && (len(c.Script) >= n1 || nsub[x] == 0) })
+			}
 			if x < 0 {
 				x = pick(active)
 			}
@@ -983,7 +1173,15 @@ func c07GenChurn(r *common.Rand) c07Case {
 			c.Script = append(c.Script, c07Op{C: x, O: "req", Sub: common.Pick(r, c07Subs), Fs: c07GenFiltersWide(r, u)})
 			nsub[x]++
 		case k < 50:
-			x := pick(active)
+			x := -1
+			if r.Chance(8) {
+				if x = pick(unread); x >= 0 {
+					pend[x] = true
+				}
+			}
+			if x < 0 {
+				x = pick(active)
+			}
 			if x < 0 {
 				continue
 			}
@@ -1045,6 +1243,7 @@ func c07GenChurn(r *common.Rand) c07Case {
 			}
 			c.Script = append(c.Script, c07Op{C: x, O: "resume"})
 			paused[x] = false
+			pend[x] = false
 		}
 	}
 	// whoever has not connected yet does so at the end, and subscribes
